@@ -18,7 +18,7 @@ LEVEL = 'other'
 MANIFEST = {
     'engine': 'fst+pysym',
     'level': 'other',
-    'technique': 'real lexer/parser/printer string functions extracted from the AST into finite-state transducers; equivalence with an explicit denotation decided for all strings (product + delay); integers by symbolic execution',
+    'technique': 'real lexer/parser/printer string functions extracted from the AST into finite-state transducers; equivalence with an explicit denotation decided for all strings (product + delay; helpers inlined, constant tables unrolled, type tests decided under the stated assumption); quoting decision of identifiers read off the real printer by symbolic execution and checked against a token-level model of the real master regex; integers by symbolic execution',
     'text': 'Every decode/encode obligation is decided for all strings of its region by transducer equivalence / regular inclusion on the '
             'minterm alphabet; extraction is mechanical and cross-checked against CPython on all strings up to length 4 on every run. '
             'The unchanged tree fails many regions (genuine defects with shortest witnesses replayed through parse_sql/to_string), so '
